@@ -336,13 +336,13 @@ func runEngine(ctx context.Context, dir string, cs ECase, judge func(*migrate.Pl
 		o.Inconclusive = "facts-after-down"
 		return
 	}
-	// objects whose stored CREATE text is not what it was: what a difference is attributed to
-	changed, textClass := masterDiff(master0, master2)
-	o.TextChanged, o.TextClass = changed, textClass
+	// (a difference is attributed to the objects of the differing tables whose stored CREATE text is not
+	// what it was before the up)
 	if d := sqlm.DiffFacts(facts0, facts2); len(d) > 0 {
 		o.FactsDiff = d
 		o.Viol = "not-restored"
-		names := changed
+		names, class := masterDiff(master0, master2, factTables(d))
+		o.TextChanged, o.TextClass = names, class
 		if len(names) == 0 {
 			names = factTables(d)
 		}
@@ -392,7 +392,9 @@ func runEngine(ctx context.Context, dir string, cs ECase, judge func(*migrate.Pl
 		}
 		types := sqlm.ChangeTypes(append(d1, d2...))
 		o.Viol = "not-restored"
-		names, what := changed, strings.Join(types, ",")
+		names, textClass := masterDiff(master0, master2, append(t1, t2...))
+		o.TextChanged, o.TextClass = names, textClass
+		what := strings.Join(types, ",")
 		if len(names) == 0 {
 			names = append(t1, t2...)
 		}
@@ -413,13 +415,13 @@ func runEngine(ctx context.Context, dir string, cs ECase, judge func(*migrate.Pl
 
 // masterText returns the stored CREATE text of every table and index of the main schema.
 func masterText(db *sql.DB) (map[string]string, error) {
-	rows, err := sqlm.Query(db, "SELECT name, sql FROM sqlite_master WHERE sql IS NOT NULL AND name NOT LIKE 'sqlite\\_%' ESCAPE '\\'")
+	rows, err := sqlm.Query(db, "SELECT name, tbl_name, sql FROM sqlite_master WHERE sql IS NOT NULL AND name NOT LIKE 'sqlite\\_%' ESCAPE '\\'")
 	if err != nil {
 		return nil, err
 	}
 	out := map[string]string{}
 	for _, r := range rows {
-		out[r[0]] = r[1]
+		out[r[0]] = r[1] + "\x00" + r[2] // "<table>\x00<create text>"
 	}
 	return out, nil
 }
@@ -427,7 +429,21 @@ func masterText(db *sql.DB) (map[string]string, error) {
 // masterDiff lists the objects whose stored text differs (or that exist on one side only) and names
 // how the texts differ: "requoted" (equal once identifier quotes are removed), "reparenthesized" (equal
 // once quotes, parentheses and blanks are removed), "other".
-func masterDiff(a, b map[string]string) (names []string, class string) {
+func masterDiff(a, b map[string]string, tables []string) (names []string, class string) {
+	// only the objects that belong to one of the tables
+	only := func(m map[string]string) map[string]string {
+		o := map[string]string{}
+		for n, v := range m {
+			tbl, text, _ := strings.Cut(v, "\x00")
+			for _, t := range tables {
+				if t == tbl {
+					o[n] = text
+				}
+			}
+		}
+		return o
+	}
+	a, b = only(a), only(b)
 	strip := func(s, cut string) string {
 		return strings.Map(func(r rune) rune {
 			if strings.ContainsRune(cut, r) {
@@ -591,7 +607,9 @@ func engineCases(c *rt.Ctx) []ECase {
 	for _, k := range kinds {
 		r.Shuffle(len(byKind[k]), func(i, j int) { byKind[k][i], byKind[k][j] = byKind[k][j], byKind[k][i] })
 	}
-	nEdit := c.Pick(330, 3600)
+	// quick: the first 330 of the round-robin over kinds, one (mode, rows) variant each; thorough: every
+	// candidate edit of every pool schema in three variants
+	nEdit, variants := c.Pick(330, 1<<30), c.Pick(1, 3)
 	n := 0
 	for round := 0; n < nEdit; round++ {
 		took := false
@@ -601,12 +619,15 @@ func engineCases(c *rt.Ctx) []ECase {
 			}
 			took = true
 			x := byKind[k][round]
-			mode := engineModes[r.IntN(len(engineModes))]
-			rows := 0
-			if x.e.Safe && r.IntN(3) == 0 {
-				rows = 3
+			first := r.IntN(len(engineModes))
+			for v := 0; v < variants; v++ {
+				mode := engineModes[(first+2*v)%len(engineModes)]
+				rows := 0
+				if x.e.Safe && (v == 1 || v == 0 && r.IntN(3) == 0) {
+					rows = 3
+				}
+				out = append(out, ECase{Name: "edit/" + x.p.Name + "/" + x.e.String(), Src: "edit", A: x.p.S, B: x.e.Apply(x.p.S), Mode: mode, Rows: rows, Edits: []string{x.e.String()}})
 			}
-			out = append(out, ECase{Name: "edit/" + x.p.Name + "/" + x.e.String(), Src: "edit", A: x.p.S, B: x.e.Apply(x.p.S), Mode: mode, Rows: rows, Edits: []string{x.e.String()}})
 			n++
 		}
 		if !took {
@@ -614,7 +635,7 @@ func engineCases(c *rt.Ctx) []ECase {
 		}
 	}
 	// (4) walks of 2–4 edits of the reversible side (add column + add index + drop table + add table …)
-	for i := 0; i < c.Pick(90, 1400); i++ {
+	for i := 0; i < c.Pick(90, 6500); i++ {
 		p := pool[r.IntN(len(pool))]
 		cur := p.S.Clone()
 		var names []string
